@@ -690,16 +690,6 @@ ORDER_PROBES_ENC = ["$x_1$ caf\xe9 & 100% {B} ~", "see http://a.b/c_d and $a+b$"
 ORDER_PROBES_DEC = ["$x_1$ caf\\'e \\& 100\\% {B}races", "\\url{http://a.b/c_d} and $a+b$", "\\\"u {\\ss} \\textbackslash"]
 ORDER_CONFIGS = [("enc", km, eu) for km in (None, True, False) for eu in (None, True, False)] + [("dec", kb, km) for kb in (None, True, False) for km in (None, True, False)]
 
-_ORDER_SCRIPT = """
-import sys, json
-sys.path.insert(0, sys.argv[1])
-sys.path.insert(0, sys.argv[2])
-import logging; logging.disable(logging.CRITICAL)
-from mc.checks import c18
-print(json.dumps(c18.order_behaviour(json.loads(sys.argv[3]))))
-"""
-
-
 def order_make(cfg):
     kind, a, b = cfg
     if kind == "enc":
@@ -709,7 +699,8 @@ def order_make(cfg):
 
 def order_behaviour(cfg, m=None):
     """What the configuration does to the probe texts (field value and @string value)."""
-    m = m if m is not None else order_make(tuple(cfg))
+    cfg = tuple(cfg)
+    m = m if m is not None else order_make(cfg)
     out = []
     for t in ORDER_PROBES_ENC if cfg[0] == "enc" else ORDER_PROBES_DEC:
         lib = m.transform(Library([Entry("a", "k", [Field("t", t)]), String("s", t)]))
@@ -718,46 +709,12 @@ def order_behaviour(cfg, m=None):
 
 
 def check_construction_order(acc):
-    """What a configuration does must not depend on which configurations were constructed (and used) before it in the
-    process.  Reference: each configuration constructed FIRST in a fresh interpreter of its own; then, in this process,
-    every ordered pair (A constructed and used, then B constructed and judged)."""
-    import json
-    import subprocess
+    """See mc/order.py: every ordered pair of encoder configurations and of decoder configurations."""
     import sys
 
-    from .. import REPO
+    from .. import order
 
-    ref = {}
-    for cfg in ORDER_CONFIGS:
-        try:
-            r = subprocess.run([sys.executable, "-c", _ORDER_SCRIPT, REPO, __import__("os").path.dirname(__import__("os").path.dirname(__import__("os").path.dirname(__import__("os").path.abspath(__file__)))), json.dumps(cfg)], capture_output=True, text=True, timeout=300, env=dict(__import__("os").environ, VERIF_REPO=REPO))
-            if r.returncode != 0:
-                acc.harness_error(f"fresh interpreter for {cfg}: {r.stderr.strip().splitlines()[-1][:200] if r.stderr.strip() else r.returncode}")
-                return
-            ref[cfg] = json.loads(r.stdout)
-        except Exception as e:
-            acc.harness_error(f"fresh interpreter for {cfg}: {e!r}")
-            return
-    for a in ORDER_CONFIGS:
-        for b in ORDER_CONFIGS:
-            if a[0] != b[0]:
-                continue
-            acc.trace(2)
-            acc.case(nontrivial_key=("construction-order", a, b))
-            acc.count("construction_orders")
-            case = {"construction_order": [list(a), list(b)]}
-            try:
-                order_behaviour(a)
-                got = json.loads(json.dumps(order_behaviour(b)))
-            except Exception as ex:
-                acc.exception(ex, case, "construct A, use it, construct B, use it")
-                continue
-            acc.step(("constructed", a), ("then", b), hash(repr(got)))
-            if got != ref[b]:
-                acc.violation(
-                    {"oracle": "behaviour_independent_of_earlier_constructions", "kind": b[0]},
-                    {"case": case, "observed": got, "expected": ref[b]},
-                )
+    order.run(sys.modules[__name__], acc)
 
 
 def run_shard(shard, tier, acc):
